@@ -29,6 +29,8 @@ from fpy2.utils import UNINIT, NamedId
 
 from vlib.denote import deep_den
 
+STALE_ROWS = 'size/inner-size-stale-after-row-store'
+
 REJECTS = (TypeInferError, FPySyntaxError, CallGraphError, NotImplementedError)
 
 ANALYSES = [
@@ -89,9 +91,17 @@ class Facts:
                         self.entry_defs[str(d.name)] = d
                     self.site_defs[(str(d.name), id(d.site))] = d
         self._reach_cache = {}
+        self._row_store = None
 
     def get(self, name):
         return self.res.get(name)
+
+    def has_row_store(self):
+        """Does the function replace a row of a nested list (`xss[i] = row`, `g[k][i] = row`) or hand a nested
+        list to a callee?  Then the lengths *inside* a list-of-lists definition can change behind it."""
+        if self._row_store is None:
+            self._row_store = _find_row_store(self.ast, self.res.get('TypeInfer'))
+        return self._row_store
 
     # -- reaching definitions: AssignDefs reachable from d through phi operands ---------------
     def reach_sites(self, d):
@@ -213,8 +223,9 @@ def classify(v):
     return None
 
 
-def check_size(v, bound, symvals, where='outer'):
-    """Yields (kind, expected, got) mismatches of value v against an ArraySizeBound."""
+def check_size(v, bound, symvals, where='outer', inner_syms=None):
+    """Yields (kind, expected, got) mismatches of value v against an ArraySizeBound.  `inner_syms` collects the
+    size variables met below the outermost list level."""
     if isinstance(bound, ListSize):
         if not isinstance(v, list):
             return
@@ -224,12 +235,14 @@ def check_size(v, bound, symvals, where='outer'):
                 yield (f'concrete/{where}', n, len(v))
         elif isinstance(n, NamedId):
             symvals.setdefault(str(n), set()).add(len(v))
+            if where == 'inner' and inner_syms is not None:
+                inner_syms.add(str(n))
         for x in v:
-            yield from check_size(x, bound.elt, symvals, 'inner')
+            yield from check_size(x, bound.elt, symvals, 'inner', inner_syms)
     elif isinstance(bound, TupleSize):
         if isinstance(v, tuple) and len(v) == len(bound.elts):
             for x, b in zip(v, bound.elts):
-                yield from check_size(x, b, symvals, where)
+                yield from check_size(x, b, symvals, where, inner_syms)
 
 
 def size_sig(v, bound):
@@ -307,6 +320,7 @@ def check_run(facts: Facts, rec, result, stats: dict, rows=True):
     symseen = {}
 
     fails = {'type': {}, 'size': {}, 'value_class': {}, 'const': {}}
+    inner_syms = set()
     sized = []
     for idx, obs in rec.expr_obs.items():
         e = nodes[idx]
@@ -328,7 +342,7 @@ def check_run(facts: Facts, rec, result, stats: dict, rows=True):
                 add('facts:size')
                 local = {}
                 bad = None
-                for kind, exp, got in check_size(v, b, local):
+                for kind, exp, got in check_size(v, b, local, 'outer', inner_syms):
                     bad = (kind, exp, got)
                     break
                 for k, sset in local.items():
@@ -407,6 +421,11 @@ def check_run(facts: Facts, rec, result, stats: dict, rows=True):
         add('facts:size-symbolic')
         if len(s) > 1:
             exprs = sorted({f'{x.format()}:{l}' for x, l in symseen[k]})[:6]
+            if k in inner_syms and facts.has_row_store():
+                # a row length that went stale when a row was replaced through an alias (one root cause with
+                # the concrete case)
+                out.append((STALE_ROWS, f'one length for size variable {k}', sorted(s), exprs))
+                continue
             cause = _symbolic_culprits(facts, symseen[k])
             if cause is None:
                 cause = 'zip-or-assert-not-on-every-path' if _has_constraint_source(facts.ast) else \
@@ -438,7 +457,10 @@ def check_run(facts: Facts, rec, result, stats: dict, rows=True):
     if sz is not None and sz.ret_size is not None:
         add('facts:size')
         for kind, exp, got in check_size(result, sz.ret_size, {}):
-            out.append((f'size/{kind}/return', exp, got, 'return'))
+            if kind == 'concrete/inner' and facts.has_row_store():
+                out.append((STALE_ROWS, exp, got, 'return'))
+            else:
+                out.append((f'size/{kind}/return', exp, got, 'return'))
             break
 
     # ---- reaching definitions
@@ -602,9 +624,11 @@ def classify_failure(facts, an, e, info):
         return f'type/{ek}/{info[0]}'
     if an == 'size':
         kind = info[0]
+        if kind in ('concrete/inner', 'symbolic-unequal-within-value') and facts.has_row_store():
+            return STALE_ROWS
         if d is not None:
             if isinstance(d, AssignDef) and kind == 'concrete/inner' and not isinstance(d.site, (Argument, FuncDef)):
-                return 'size/inner-size-stale-after-row-store'
+                return STALE_ROWS
             return f'size/{_def_kind(d)}/{kind}'
         return f'size/{ek}/{kind}'
     if an == 'value_class':
@@ -697,3 +721,43 @@ def _has_constraint_source(ast):
     h = _Has()
     h._visit_function(ast, None)
     return h.found
+
+
+def _ty_holds_list(ty):
+    if isinstance(ty, ListType):
+        return True
+    if isinstance(ty, TupleType):
+        return any(_ty_holds_list(t) for t in ty.elts)
+    return False
+
+
+def _ty_holds_rows(ty):
+    if isinstance(ty, ListType):
+        return _ty_holds_list(ty.elt)
+    if isinstance(ty, TupleType):
+        return any(_ty_holds_rows(t) for t in ty.elts)
+    return False
+
+
+def _find_row_store(ast, ti):
+    from fpy2.ast.visitor import DefaultVisitor
+    from fpy2.function import Function
+    if ti is None:
+        return False
+
+    class _Find(DefaultVisitor):
+        found = False
+
+        def _visit_indexed_assign(self, stmt, ctx):
+            if _ty_holds_list(ti.by_expr.get(stmt.expr)):
+                self.found = True
+            super()._visit_indexed_assign(stmt, ctx)
+
+        def _visit_call(self, e, ctx):
+            if isinstance(e.fn, Function) and any(_ty_holds_rows(ti.by_expr.get(a)) for a in e.args):
+                self.found = True
+            super()._visit_call(e, ctx)
+
+    f = _Find()
+    f._visit_function(ast, None)
+    return f.found
